@@ -195,3 +195,25 @@ func (k Keeper) withdrawLockedAndUnlocked(ctx sdk.Context, subAccAddr sdk.AccAdd
 
 	return nil
 }
+
+// returnToSubaccount sends back to the subaccount the part of a wager deduction that the bet module did not take
+// and reduces the withdrawn amount of the account summary accordingly.
+func (k Keeper) returnToSubaccount(ctx sdk.Context, subAccAddr, ownerAddr sdk.AccAddress, amount sdkmath.Int) error {
+	if !amount.IsPositive() {
+		return nil
+	}
+	accSummary, exists := k.GetAccountSummary(ctx, subAccAddr)
+	if !exists {
+		panic("data corruption: subaccount exists but balance does not")
+	}
+	if amount.GT(accSummary.WithdrawnAmount) {
+		return sdkerrors.Wrapf(types.ErrWithdrawLocked, "returned amount %s is more than the withdrawn amount", amount)
+	}
+	if err := k.bankKeeper.SendCoins(ctx, ownerAddr, subAccAddr,
+		sdk.NewCoins(sdk.NewCoin(params.DefaultBondDenom, amount))); err != nil {
+		return sdkerrors.Wrapf(types.ErrSendCoinError, "error sending coin from main account to subaccount %s", err)
+	}
+	accSummary.WithdrawnAmount = accSummary.WithdrawnAmount.Sub(amount)
+	k.SetAccountSummary(ctx, subAccAddr, accSummary)
+	return nil
+}
